@@ -4,6 +4,8 @@ import (
 	"fmt"
 	"math/rand"
 	"runtime"
+	"strings"
+	"sync/atomic"
 
 	"verifharness/fw"
 )
@@ -296,6 +298,10 @@ func RunC09(k *fw.Case, randomBody func(r *rand.Rand, id int) (string, string, m
 		label = cell.f.name + "@" + cell.c.name
 		k.Count("catalog_cells", 1)
 	} else {
+		if k.Index%8 == 3 {
+			ConcStress(k)
+			return
+		}
 		var extra map[string]interface{}
 		custom, label, extra = randomBody(r, badID)
 		for n, v := range extra {
@@ -397,9 +403,15 @@ func RunC09(k *fw.Case, randomBody func(r *rand.Rand, id int) (string, string, m
 			}
 		}
 		if c.Method == MDAG {
-			c.DAG = [][]string{{"h0"}, {"bad", "h1"}, {"h2"}}
-			if r.Intn(2) == 0 {
+			switch r.Intn(4) {
+			case 0:
+				c.DAG = [][]string{{"h0"}, {"bad", "h1"}, {"h2"}}
+			case 1:
 				c.DAG = [][]string{{"bad"}, {"h0", "h1", "h2"}}
+			case 2:
+				c.DAG = [][]string{{"h0", "h1"}, {"h2", "bad"}} // the fault is in the LAST layer
+			default:
+				c.DAG = [][]string{{"bad", "h0", "ghost"}} // a single layer
 			}
 		}
 		lg := NewLog()
@@ -442,4 +454,80 @@ func reportFault(k *fw.Case, label string, rs *RuleSet, c Call, out Outcome, fs 
 		k.Violate(label+"/"+m+"/"+f.Clause, fmt.Sprintf("fault %s through %s: %s", label, m, f.Msg), map[string]interface{}{
 			"rule_text": rs.Text, "call": c, "gomaxprocs": procs, "events": evString(out.Events), "err": errS, "result": fmt.Sprint(out.Result)})
 	}
+}
+
+// ConcStress (C09, random part): a compilable rule whose conc block reads and writes many
+// locals at once, executed a few hundred times in several models. Nothing in it faults, so the
+// call must return nil - and, above all, it must return: a crash of the process (e.g. the Go
+// runtime's unrecoverable "concurrent map read and map write") is attributed to this case by
+// the coordinator.
+func ConcStress(k *fw.Case) {
+	r := k.Rng
+	var b strings.Builder
+	b.WriteString("rule \"stress\" salience 5 begin\n  y = 20\n  z = 22\n  conc {\n")
+	n := 16 + r.Intn(16)
+	for i := 0; i < n; i++ {
+		switch i % 3 {
+		case 0:
+			fmt.Fprintf(&b, "    v%d = y + z\n", i)
+		case 1:
+			fmt.Fprintf(&b, "    seen(y, z)\n")
+		default:
+			fmt.Fprintf(&b, "    w%d = seen(z, y)\n", i)
+		}
+	}
+	b.WriteString("  }\n  return v0\nend\nrule \"other\" salience 1 begin conc { a1 = 1 a2 = a1x() } return a1 end\n")
+	var calls int64
+	apis := map[string]interface{}{
+		"seen": func(a, c int64) int64 { atomic.AddInt64(&calls, 1); return a + c },
+		"a1x":  func() int64 { return 2 },
+	}
+	obs := NewObs()
+	eng, err := NewEngineTarget(obs, b.String())
+	if err != nil {
+		k.Inconclusive("conc stress text does not compile: " + trunc(err.Error(), 200))
+		return
+	}
+	for n, v := range apis {
+		eng.DC.Add(n, v)
+	}
+	pa := obs.Apis()
+	for n, v := range apis {
+		pa[n] = v
+	}
+	var pool *Target
+	if CompileLocked(func() error {
+		p, e := newPool(1, 2, 1, b.String(), pa)
+		if e == nil {
+			pool = &Target{Obs: obs, Pool: p}
+		}
+		return e
+	}) != nil {
+		k.Inconclusive("conc stress text does not compile in a pool")
+		return
+	}
+	methods := []string{MExecute, MConcurrent, MMix, MDAG}
+	for i := 0; i < 240; i++ {
+		t := eng
+		if i%3 == 0 {
+			t = pool
+		}
+		c := Call{Method: methods[i%len(methods)], B: true, Pool: t.Pool != nil, DAG: [][]string{{"stress", "other"}, {"stress"}}}
+		out := t.Invoke(c, NewLog())
+		k.Eval(1)
+		if out.Panic != nil {
+			k.Violate("conc-stress/panic", fmt.Sprintf("a healthy rule with a wide conc block panicked into the caller: %v", out.Panic), map[string]interface{}{"rule_text": b.String()})
+			return
+		}
+		if out.Err != nil {
+			k.Violate("conc-stress/error", "a healthy rule with a wide conc block failed: "+trunc(out.Err.Error(), 300), map[string]interface{}{"rule_text": b.String()})
+			return
+		}
+		if v, ok := out.Result["stress"]; !ok || v != interface{}(int64(42)) {
+			k.Violate("conc-stress/value", fmt.Sprintf("conc block computed %v, expected 42", v), map[string]interface{}{"rule_text": b.String()})
+			return
+		}
+	}
+	k.Count("conc_stress_executions", 240)
+	k.Distinct("conc-stress", n)
 }
